@@ -19,7 +19,7 @@ func init() {
 	fw.Register(&fw.Property{
 		ID:    "C05",
 		Level: "fault_enumeration",
-		Rule: "mode (a) prefix replay, EXHAUSTIVE per history: a history of 6-20 local writes, replications (1-2 remote writers, forks) and local writes held at write.after-append while a remote batch is merged and persisted runs on a peer whose kubo repo datastore (all block writes), cache datastores and keystore datastore are recording decorators; acknowledgements (write call returned; EventReplicated received) are stamped with the effect index. Then for EVERY prefix k of the effect log after database creation a fresh, isolated peer with the same libp2p key is built whose stores hold exactly effects[0:k], opens the database and calls Load(-1). mode (b): clean close/reopen cycles on real on-disk leveldb directories (3 peers, one of them holding only replicated entries), state before each stop compared with state after reopen+Load. mode (c) self-kill: a grandchild process with a leveldb-backed blockstore, the real cacheleveldown cache and leveldb keystore on disk sends itself SIGKILL right after the N-th persistence effect returned (N from the PRNG, 3 kills in a row on one directory); acknowledgements are fsync'ed to a side file before the next step; the directory is then recovered in-process. " +
+		Rule: "mode (a) prefix replay, EXHAUSTIVE per history: a history of 6-20 local writes, replications (1-2 remote writers, forks) and local writes held at write.after-append while a remote batch is merged and persisted runs on a peer whose kubo repo datastore (all block writes), cache datastores and keystore datastore are recording decorators; acknowledgements (write call returned; EventReplicated received) are stamped with the effect index. Then for EVERY prefix k of the effect log after database creation a fresh, isolated peer with the same libp2p key is built whose stores hold exactly effects[0:k], opens the database and calls Load(-1). mode (b): clean close/reopen cycles on real on-disk leveldb directories (3 peers, one of them holding only replicated entries), state before each stop compared with state after reopen+Load; a second short-lived handle on the same database is opened and closed now and then (writes refused afterwards are not owed, acknowledged ones are). mode (c) self-kill: a grandchild process with a leveldb-backed blockstore, the real cacheleveldown cache and leveldb keystore on disk sends itself SIGKILL right after the N-th persistence effect returned (N from the PRNG, 3 kills in a row on one directory); acknowledgements are fsync'ed to a side file before the next step; the directory is then recovered in-process. " +
 			"distinct = (history, crash index) resp. (history, restart index); non-trivial = the prefix lies after at least one acknowledgement (something must be recovered) resp. the restarted replica held >= 1 entry",
 		Assumptions: []string{"each effect is durable once its call returns (no fsync / power-loss model)", "sequential writers on the crashing peer (concurrent writers are C17)", "after every reopen Load(-1) is called before anything is written (assumption stated by the properties)"},
 		Cases:       c05Cases,
@@ -126,7 +126,27 @@ func c05Prefix(c fw.Case) fw.Verdict {
 	}()
 	var script []string
 	for i := 0; i < c.Int("steps", 10); i++ {
-		switch x := rng.Intn(12); {
+		switch x := rng.Intn(14); {
+		case x >= 12:
+			// a long remote branch arrives in one batch: several ancestors to fetch behind one announced head
+			o := remotes[rng.Intn(len(remotes))]
+			nb := 3 + rng.Intn(4)
+			for j := 0; j < nb; j++ {
+				if _, err := ApplyOp(bg, db.Stores[o.Idx], honestOp(typ, 600+i*10+j)); err != nil {
+					cancel()
+					return fw.Verdict{Status: fw.Inconclusive, What: "remote write: " + err.Error()}
+				}
+			}
+			e.W.Settle()
+			// only the newest announcement gets through
+			pool := e.W.Inflight()
+			for k, m := range pool {
+				if k < len(pool)-1 {
+					e.W.Take(m.ID)
+				}
+			}
+			e.W.Flush()
+			script = append(script, fmt.Sprintf("remote-burst(p%d,%d)", o.Idx, nb))
 		case x >= 10:
 			// a remote batch is merged while a local write is between append and head persistence
 			o := remotes[rng.Intn(len(remotes))]
@@ -325,18 +345,81 @@ func c05Cycles(c fw.Case) fw.Verdict {
 	e.W.Flush()
 	restarts := 0
 	var script []string
+	// acknowledgements per peer: writes that returned nil, entries reported by EventReplicated
+	var amu sync.Mutex
+	acked := map[int]map[string]bool{0: {}, 1: {}, 2: {}}
+	degraded := map[int]bool{} // a sibling handle closed the shared cache: only acknowledged entries are owed
+	cancels := map[int]context.CancelFunc{}
+	watch := func(i int) {
+		ctx, cancel := context.WithCancel(bg)
+		cancels[i] = cancel
+		sub, err := db.Stores[peers[i].Idx].EventBus().Subscribe(new(stores.EventReplicated), busBuf(1024))
+		if err != nil {
+			return
+		}
+		go func() {
+			defer sub.Close()
+			for {
+				select {
+				case x := <-sub.Out():
+					ev := x.(stores.EventReplicated)
+					if ev.Address.String() != db.Addr {
+						continue
+					}
+					amu.Lock()
+					for _, en := range ev.Entries {
+						acked[i][en.GetHash().String()] = true
+					}
+					amu.Unlock()
+				case <-ctx.Done():
+					return
+				}
+			}
+		}()
+	}
+	for i := range peers {
+		watch(i)
+	}
+	defer func() {
+		for _, c := range cancels {
+			c()
+		}
+	}()
 	for i := 0; i < c.Int("steps", 20); i++ {
-		switch x := rng.Intn(12); {
+		switch x := rng.Intn(13); {
+		case x == 12:
+			// a second, short-lived handle on the same database in the same process
+			w := []int{0, 2}[rng.Intn(2)]
+			if !peers[w].Running() {
+				continue
+			}
+			octx, ocancel := context.WithTimeout(bg, 20*time.Second)
+			sib, err := peers[w].DB.Open(octx, db.Addr, &iface.CreateDBOptions{})
+			ocancel()
+			if err == nil {
+				_ = sib.Load(bg, -1)
+				_ = sib.Close()
+				// Close of the sibling unregistered the address: register the surviving handle's store again for idle detection
+				peers[w].Track(db.Stores[peers[w].Idx])
+				degraded[w] = true
+				script = append(script, fmt.Sprintf("sibling-handle-opened-and-closed(p%d)", w))
+				v.Count("sibling_handles", 1)
+			}
+			e.W.Settle()
 		case x >= 10:
 			if !peers[0].Running() || !peers[2].Running() {
 				continue
 			}
-			if _, err := ApplyOp(bg, db.Stores[peers[2].Idx], honestOp(typ, 300+i)); err != nil {
-				return fw.Verdict{Status: fw.Inconclusive, What: "write: " + err.Error()}
+			if wop, err := ApplyOp(bg, db.Stores[peers[2].Idx], honestOp(typ, 300+i)); err == nil {
+				amu.Lock()
+				acked[2][wop.GetEntry().GetHash().String()] = true
+				amu.Unlock()
 			}
 			e.W.Settle()
-			if _, err := writeRacingMerge(e, db.Stores[peers[0].Idx], honestOp(typ, i)); err != nil {
-				return fw.Verdict{Status: fw.Inconclusive, What: "write: " + err.Error()}
+			if wop, err := writeRacingMerge(e, db.Stores[peers[0].Idx], honestOp(typ, i)); err == nil {
+				amu.Lock()
+				acked[0][wop.GetEntry().GetHash().String()] = true
+				amu.Unlock()
 			}
 			script = append(script, "write-racing-merge(p0)")
 			v.Count("write_merge_races", 1)
@@ -346,8 +429,16 @@ func c05Cycles(c fw.Case) fw.Verdict {
 			if !peers[w].Running() {
 				continue
 			}
-			if _, err := ApplyOp(bg, db.Stores[peers[w].Idx], honestOp(typ, i)); err != nil {
-				return fw.Verdict{Status: fw.Inconclusive, What: "write: " + err.Error()}
+			if wop, err := ApplyOp(bg, db.Stores[peers[w].Idx], honestOp(typ, i)); err == nil {
+				amu.Lock()
+				acked[w][wop.GetEntry().GetHash().String()] = true
+				amu.Unlock()
+			} else {
+				// not acknowledged (e.g. the cache was closed through a sibling handle): nothing is owed for it
+				script = append(script, fmt.Sprintf("write(p%d)=refused", w))
+				v.Count("writes_refused", 1)
+				e.W.Settle()
+				continue
 			}
 			script = append(script, fmt.Sprintf("write(p%d)", w))
 			e.W.Settle()
@@ -360,6 +451,8 @@ func c05Cycles(c fw.Case) fw.Verdict {
 			e.W.Settle()
 			before := TakeSnap(typ, db.Stores[p.Idx], p.Idx)
 			idBefore := p.DB.Identity().ID
+			time.Sleep(2 * time.Millisecond) // harness subscriber drain
+			cancels[i]()
 			p.Stop()
 			e.W.Settle()
 			if err := p.Start(); err != nil {
@@ -373,8 +466,11 @@ func c05Cycles(c fw.Case) fw.Verdict {
 				return fw.Verdict{Status: fw.Violated, Key: "load-after-restart-failed", What: err.Error(), NonTrivial: true}
 			}
 			e.W.Settle()
+			watch(i)
 			after := TakeSnap(typ, s, p.Idx)
 			restarts++
+			wasDegraded := degraded[i]
+			delete(degraded, i)
 			script = append(script, fmt.Sprintf("restart(p%d,%d entries)", i, len(before.Order)))
 			v.Count("restarts_compared", 1)
 			if len(before.Order) > 0 {
@@ -387,7 +483,23 @@ func c05Cycles(c fw.Case) fw.Verdict {
 			for _, h := range after.Order {
 				have[h] = true
 			}
+			amu.Lock()
+			var owed []string
+			for h := range acked[i] {
+				owed = append(owed, h)
+			}
+			amu.Unlock()
+			for _, h := range owed {
+				if !have[h] {
+					return fw.Verdict{Status: fw.Violated, Key: "acknowledged-entry-lost-after-clean-restart", NonTrivial: true, Trace: script,
+						What: fmt.Sprintf("p%d: an acknowledged entry (write returned nil / reported by EventReplicated) %s is missing after a clean close, reopen and Load(-1) (%d of %d acknowledged entries present; sibling handle closed earlier: %v)", i, short(h), len(after.Order), len(owed), wasDegraded)}
+				}
+			}
+			v.Count("acknowledged_entries_checked", int64(len(owed)))
 			for _, h := range before.Order {
+				if wasDegraded {
+					break // merged but never reported entries are not owed once the shared cache was closed under the store
+				}
 				if !have[h] {
 					kind := "replica-only"
 					if i != 1 {
@@ -400,7 +512,7 @@ func c05Cycles(c fw.Case) fw.Verdict {
 			if vio := checkSnapAgainstModel(typ, after.Entries, after, &v); vio != nil {
 				return fw.Verdict{Status: fw.Violated, Key: vio.Key + "/after-restart", What: vio.What, NonTrivial: true}
 			}
-			if before.View != after.View && len(before.Order) == len(after.Order) {
+			if !wasDegraded && before.View != after.View && len(before.Order) == len(after.Order) {
 				return fw.Verdict{Status: fw.Violated, Key: "state-differs-after-restart", What: "same entries, different visible state after restart", NonTrivial: true}
 			}
 		}
